@@ -4,6 +4,7 @@ import Driver.Output
 import Driver.Vars
 import Driver.Remote
 import Driver.Quote
+import Driver.Load
 /-! Line protocol: `<op> <tok>*` in, one line out (`bad-op` for anything not understood). -/
 open Driver
 
@@ -18,6 +19,7 @@ def dispatch (line : String) : String :=
       else if op.startsWith "vars." then Driver.Vars.handle op args
       else if op.startsWith "remote." then Driver.Remote.handle op args
       else if op.startsWith "quote." then Driver.Quote.handle op args
+      else if op.startsWith "load." then Driver.Load.handle op args
       else none
     r.getD "bad-op"
 
